@@ -18,7 +18,8 @@ func init() {
 			"(I) chain of custody of (backend ID, request ID): proxyHandler stores and waits under the same two values (LookupBackend result, App Engine request ID), stores the serialisation of its own request and parses the bytes waitForResponse returned; the agent endpoints read/write under the validated backend ID and the header's request ID; a response is stored only after ReadRequest(backendID, requestID) under the same pair succeeded (WriteResponse unreachable from its failure branch); " +
 			"(K) key agreement: datastore keys for requests, responses and blob parts are built with the same kind and the same argument roles on the write and on the read path; blob parts are written under names recorded in loop order and read back with one ordered GetMulti over keys built from blob.Parts in order, concatenated in that order, without goroutines; " +
 			"(C) completion: Completed=true is set on the request that was read, before it is written back; the pending query filters Completed=false on the kind of the same backend; " +
-			"(H) no call hangs: every error channel has capacity ≥ the maximum number of sends that can happen (path-sensitive count over the function plus its goroutines; loop-spawned senders vs. a capacity equal to the loop bound); WaitGroup Add(n) equals the goroutines that defer Done; both wait loops select on a context derived from context.WithTimeout(constant) and return; the time-out maps to 504.",
+			"(H) no call hangs: every error channel has capacity ≥ the maximum number of sends that can happen (path-sensitive count over the function plus its goroutines; loop-spawned senders vs. a capacity equal to the loop bound); WaitGroup Add(n) equals the goroutines that defer Done; both wait loops select on a context derived from context.WithTimeout(constant) and return; the time-out maps to 504. " +
+			"(S) cache keys are injective in (backend ID, request ID) and built from the same roles on both sides; (R) the GET response cache key is injective in (user, URL), one value for lookup and store, GET only.",
 		Assumptions: []string{"datastore GetMulti returns entities in key order; memcache/datastore round-trip byte slices"},
 		Run:         runC19,
 	})
